@@ -7,8 +7,16 @@ change does, what it needs to manifest, what the author ran, what was run here t
 run against it with which outcome (from the eval logs written by tools/eval_mutant.sh)."""
 import json, os, re, shutil, sys
 
-src, confirm = sys.argv[1], sys.argv[2]
-evals = sys.argv[3:]
+args = [a for a in sys.argv[1:] if not a.startswith('--')]
+# --rename A=C,B=D stores variant A of the source directory as <PROP>-C (a second, independent sample of changes)
+rename = {}
+for a in sys.argv[1:]:
+    if a.startswith('--rename='):
+        for kv in a[len('--rename='):].split(','):
+            k, v = kv.split('=')
+            rename[k] = v
+src, confirm = args[0], args[1]
+evals = args[2:]
 dst_root = '/verif/seeded'
 conf = {}
 for l in open(confirm):
@@ -38,18 +46,19 @@ for prop in sorted(os.listdir(src)):
         if not c or c[0] != 0 or c[1] == 0 or c[2] != 0:
             print('skip (not confirmed)', prop, v, c)
             continue
-        out = os.path.join(dst_root, f'{prop}-{v}')
+        out = os.path.join(dst_root, f'{prop}-{rename.get(v, v)}')
         os.makedirs(out, exist_ok=True)
         shutil.copy(os.path.join(d, f'{v}.patch.diff'), os.path.join(out, 'patch.diff'))
         for f in os.listdir(d):
-            if f.startswith(f'{v}.demo') and f.endswith('_test.go'):
+            if f.startswith(f'{v}.demo') and f.endswith('.go'):
                 shutil.copy(os.path.join(d, f), os.path.join(out, 'demo_test.go'))
             if f == f'{v}.demo.md':
                 shutil.copy(os.path.join(d, f), os.path.join(out, 'demo.md'))
         am = meta_all.get(v, meta_all if 'what' in meta_all else {})
         meta = {
             'property': prop,
-            'variant': v,
+            'variant': rename.get(v, v),
+            'sample': 2 if rename else 1,
             'what': am.get('what'),
             'needs_to_manifest': am.get('needs'),
             'files': am.get('files'),
